@@ -1089,6 +1089,106 @@ func (w *world) quiesce(patience time.Duration) (string, bool) {
 	}
 }
 
+// session: one Watch … Reconcile run of the runtime, bound to its own context.
+type session struct {
+	ctx    context.Context
+	cancel context.CancelFunc
+	done   chan error
+	// proven: this session's Reconcile has been seen to consume an event of its streams (a round in
+	// which the table had to change and did, with no Load of the harness's own). Reconcile picks the
+	// runtime's streams up when it starts running, which the harness cannot observe otherwise.
+	proven bool
+}
+
+// startSession: Watch (+ a second Watch on another live context, 1 time in 4 – the first context is
+// then abandoned), Load(nil), Reconcile in a goroutine. No other Reconcile is running at this point,
+// so the Load is observed in full (table and notifications).
+func (w *world) startSession(rng *lib.RNG) *session {
+	s := &session{done: make(chan error, 1)}
+	s.ctx, s.cancel = context.WithCancel(context.Background())
+	if rng.Chance(1, 4) {
+		first, abandon := context.WithCancel(context.Background())
+		if err := w.rt.Watch(first); err != nil {
+			w.fail("watch-error", err.Error())
+		}
+		w.op("watch", "ok")
+		w.remark("Watch is called again, with another context; the first context is cancelled afterwards")
+		defer abandon()
+		w.c.Hit("session-watch-twice")
+	}
+	if err := w.rt.Watch(s.ctx); err != nil {
+		w.fail("watch-error", err.Error())
+	}
+	w.op("watch", "ok")
+	w.load(nil)
+	go func() { s.done <- w.rt.Reconcile(s.ctx) }()
+	return s
+}
+
+func (w *world) awaitReconcile(s *session, why string) {
+	select {
+	case <-s.done:
+	case <-time.After(10 * time.Second):
+		w.fail("reconcile-stuck", "Reconcile did not return 10 s after "+why)
+	}
+}
+
+// endSession ends a watch session WITHOUT discarding the runtime: the session's context is
+// cancelled (the store closes both streams) and Reconcile is awaited; 1 time in 3 Runtime.Close
+// follows (streams forgotten, table emptied – observed), 1 time in 3 Reconcile is called once more
+// (on the ended streams it must return at once).
+func (w *world) endSession(rng *lib.RNG, s *session) {
+	s.cancel()
+	w.remark("the session's context is cancelled (no Runtime.Close)")
+	w.awaitReconcile(s, "its context was cancelled")
+	switch rng.Intn(3) {
+	case 0:
+		w.takeNotes()
+		var err error
+		ok, p := lib.WithTimeout(10*time.Second, func() { err = w.rt.Close(context.Background()) })
+		if !ok || p != nil || err != nil {
+			w.fail("close-failed", fmt.Sprintf("Runtime.Close: returned=%v panic=%v err=%v", ok, p, err))
+		}
+		w.op("close", fmt.Sprintf("e0 T %s L %s", tableString(w.table()), notesString(w.takeNotes())))
+		w.c.Hit("session-end-close")
+	case 1:
+		ctx, cancel := context.WithCancel(context.Background())
+		ok, p := lib.WithTimeout(5*time.Second, func() { _ = w.rt.Reconcile(ctx) })
+		cancel()
+		if !ok || p != nil {
+			w.fail("reconcile-on-ended-session", fmt.Sprintf("Reconcile called again after the session's context was cancelled: returned=%v panic=%v", ok, p))
+		}
+		w.remark("Reconcile was called again on the ended session and returned")
+		w.c.Hit("session-end-reconcile-again")
+	default:
+		w.c.Hit("session-end-cancel")
+	}
+}
+
+// rewatch: Watch is called again in the middle of a live session (the running Reconcile loses its
+// streams and must return; what they still held is dropped – a Load repairs it), then Load(nil) and
+// a new Reconcile on the new streams.
+func (w *world) rewatch(rng *lib.RNG, old *session) *session {
+	s := &session{done: make(chan error, 1)}
+	s.ctx, s.cancel = context.WithCancel(context.Background())
+	w.remark("Watch is called again while the session is live")
+	if err := w.rt.Watch(s.ctx); err != nil {
+		w.fail("watch-error", err.Error())
+	}
+	w.op("watch", "ok")
+	if old.proven {
+		w.awaitReconcile(old, "Watch replaced its streams")
+		old.cancel()
+	} else { // its goroutine may not have picked its streams up yet: it might take the new ones
+		old.cancel()
+		w.awaitReconcile(old, "its context was cancelled")
+	}
+	w.load(nil)
+	go func() { s.done <- w.rt.Reconcile(s.ctx) }()
+	w.c.Hit("session-rewatch-live")
+	return s
+}
+
 func watchCase(c *lib.Ctx, rng *lib.RNG, sc *lib.Script, fails *[]lib.OracleFail) string {
 	nns := rng.Range(2, 3)
 	w := newWorld(c, sc, fails, 1)
@@ -1098,40 +1198,60 @@ func watchCase(c *lib.Ctx, rng *lib.RNG, sc *lib.Script, fails *[]lib.OracleFail
 	for i := rng.Intn(6); i > 0; i-- {
 		w.mutate(rng, nns)
 	}
-	if err := w.rt.Watch(w.ctx); err != nil {
-		w.fail("watch-error", err.Error())
-		return ""
+	sessions := 1
+	if rng.Bool() {
+		sessions = rng.Range(2, 3) // the SAME runtime is used for a second and a third watch session
 	}
-	w.op("watch", "ok")
-	w.load(nil)
-	done := make(chan error, 1)
-	go func() { done <- w.rt.Reconcile(w.ctx) }()
 	rounds := rng.Range(3, c.Scale(10, 25))
-	for r := 0; r < rounds; r++ {
-		if k := rng.Intn(12); k < 3 {
-			w.parkedRepeat(rng, nns)
-		} else if k < 6 {
-			w.parkedDelete(rng, nns)
-		} else {
-			for k := rng.Range(1, 4); k > 0; k-- {
+	var s *session
+	failed := false
+	for si := 0; si < sessions && !failed; si++ {
+		if si > 0 {
+			w.endSession(rng, s)
+			for k := rng.Intn(3); k > 0; k-- { // changes nobody is told about: the next session's Load must pick them up
 				w.mutate(rng, nns)
 			}
+			if rng.Chance(1, 3) {
+				w.load(nil)
+			}
+			c.Hit("session-next")
 		}
-		got, ok := w.quiesce(10 * time.Second)
-		w.op("drain", "T "+got)
-		if !ok {
-			w.fail("not-converged", fmt.Sprintf("10 s after the last store change the table is [%s], the stores demand [%s]", got, tableString(w.target())))
-			break
+		s = w.startSession(rng)
+		n := rounds / sessions
+		if n < 2 {
+			n = 2
 		}
-		w.takeNotes()
-		c.Hit("watch-round")
+		for r := 0; r < n; r++ {
+			before, own := tableString(w.target()), false
+			if k := rng.Intn(14); k < 3 {
+				w.parkedRepeat(rng, nns)
+			} else if k < 6 {
+				w.parkedDelete(rng, nns)
+				own = true // may have called Load(nil) itself
+			} else if k < 7 && r > 0 {
+				s = w.rewatch(rng, s)
+				continue
+			} else {
+				for k := rng.Range(1, 4); k > 0; k-- {
+					w.mutate(rng, nns)
+				}
+			}
+			got, ok := w.quiesce(10 * time.Second)
+			w.op("drain", "T "+got)
+			if !ok {
+				w.fail("not-converged", fmt.Sprintf("watch session %d of this runtime: 10 s after the last store change the table is [%s], the stores demand [%s]", si+1, got, tableString(w.target())))
+				failed = true
+				break
+			}
+			if !own && before != got {
+				s.proven = true
+			}
+			w.takeNotes()
+			c.Hit("watch-round")
+		}
 	}
-	w.cancel()
-	select {
-	case <-done:
-	case <-time.After(10 * time.Second):
-		w.fail("reconcile-stuck", "Reconcile did not return 10 s after its context was cancelled")
-	}
+	s.cancel()
+	w.awaitReconcile(s, "its context was cancelled")
 	if c.Evaluations < 4 {
 		c.Sample(w.trace)
 	}
@@ -1775,7 +1895,7 @@ func replayCorpus(c *lib.Ctx, sc *lib.Script, fails *[]lib.OracleFail) {
 }
 
 func Run(c *lib.Ctx) {
-	c.Rule = "random histories (≤30 ops quick / ≤70 thorough) of insert / update / delete / Update with Upsert or $unset (documents addressed by id, id+namespace, name, namespace+name; namespace in the filter or only in $set; on existing and on absent documents) on the spec store (6 ids, kinds k0 k1 registered, k2 k3 unknown, 0–2 env entries by id or by name) and the value store (6 ids, 4 names) over 2–3 namespaces with Load(nil) / Load({id}) / Load({$or}) at random points, every Load observed (whole table + notifications) and compared with Uniflow.Runtime.step and with the harness's own target; plus Watch+Reconcile runs (bursts of 1–4 mutations) compared at quiescence, plus forced overlaps of a parked Load with the mutation and the other consumer (verif yield hook), plus a directed family (the same spec / the same bound value updated 2–3 times while the reconciler's Load for the first update is parked, with / without an unrelated event afterwards) and the same as a random ingredient of the Watch+Reconcile histories (1 round in 4), plus a second directed family (a spec that a parked Load – the reload for its value's update, or a user's Load(nil) – has read is deleted / deleted and re-inserted here or in another namespace / loses its value, the reconciler gets a moment, the Load is released) and its random ingredient (1 round in 4); non-trivial = at least two Loads and a non-empty spec store, distinct by full trace"
+	c.Rule = "random histories (≤30 ops quick / ≤70 thorough) of insert / update / delete / Update with Upsert or $unset (documents addressed by id, id+namespace, name, namespace+name; namespace in the filter or only in $set; on existing and on absent documents) on the spec store (6 ids, kinds k0 k1 registered, k2 k3 unknown, 0–2 env entries by id or by name) and the value store (6 ids, 4 names) over 2–3 namespaces with Load(nil) / Load({id}) / Load({$or}) at random points, every Load observed (whole table + notifications) and compared with Uniflow.Runtime.step and with the harness's own target; plus Watch+Reconcile runs (bursts of 1–4 mutations) compared at quiescence – one to three watch sessions on the SAME runtime (a session ends by cancelling its context, sometimes followed by Runtime.Close or by another Reconcile call; the next starts with Watch – sometimes twice – and Load(nil); Watch may also be repeated in a live session) –, plus forced overlaps of a parked Load with the mutation and the other consumer (verif yield hook), plus a directed family (the same spec / the same bound value updated 2–3 times while the reconciler's Load for the first update is parked, with / without an unrelated event afterwards) and the same as a random ingredient of the Watch+Reconcile histories (1 round in 4), plus a second directed family (a spec that a parked Load – the reload for its value's update, or a user's Load(nil) – has read is deleted / deleted and re-inserted here or in another namespace / loses its value, the reconciler gets a moment, the Load is released) and its random ingredient (1 round in 4); non-trivial = at least two Loads and a non-empty spec store, distinct by full trace"
 	c.Assumptions = []string{
 		"each store mutation, each Load and each consumption of one stream event is one atomic step of the model (store mutex; loadMu of the fixed runtime)",
 		"a spec and a value keep their namespace for life (a move is delete + insert); env entries reference a value by id or by name (anonymous entries and Config.Environment are C18's subject and are not generated)",
@@ -1783,6 +1903,7 @@ func Run(c *lib.Ctx) {
 		"a spec whose Bind fails may be left partially rewritten by Go (map order); it is observed only as `unbound`",
 		"the theorems C09.converges* take the two store streams as reliable FIFO queues (C13's events_exact); the directed repeat family and C09.lossy_queue_breaks_convergence show what happens otherwise",
 		"C09.converges_concurrent has at most one Load or event handling in flight (loadMu around every event kind's handling); the delete-during-load family and C09.unlocked_delete_breaks_convergence show what happens otherwise",
+		"between two watch sessions of a runtime nobody is told about store changes (the streams are closed): only the next session's Load(nil) is required to repair the table; Runtime.Close is called only after Reconcile has returned (Close does not wait for a Load in flight – see the report; outside the property's statement)",
 		"Watch+Reconcile runs are compared at quiescence only: the harness waits (≤10 s) until the table equals the target computed from its mirror of the stores",
 	}
 	c.Trusted = []string{"the harness's mirror of the two stores (checked against every mutation's outcome)", "pkg/runtime/verif_on.go (read-only table accessor)"}
@@ -1832,7 +1953,7 @@ func Run(c *lib.Ctx) {
 		c.Count(seqCase(c, rng.Fork(), sc, &fails))
 	}
 	nw := c.Scale(60, 600)
-	for i := 0; i < nw && len(fails) < 20; i++ { // every failing case waits out its patience: enough is enough
+	for i := 0; i < nw && len(fails) < 8; i++ { // every failing case waits out its patience: enough is enough
 		sc.Begin()
 		c.Count(watchCase(c, rng.Fork(), sc, &fails))
 	}
